@@ -131,6 +131,7 @@ struct World {
   unsigned opGlobalNew = 0;  // global operator new / malloc reached while armed (outside harness code)
   int harnessDepth = 0;      // > 0 while simulator bookkeeping runs inside an armed call
   unsigned opCmpCalls = 0, opPoisonCmpCalls = 0;
+  unsigned opCmpBytewise = 0;  // calls on a self-referencing comparator object that was moved by raw byte copy
   unsigned opWatchHits = 0;  // element events inside the watched address range
   uintptr_t watchLo = 0, watchHi = 0;
   uint64_t opRelocElems = 0;  // elements relocated by growth (counted at the allocator seam)
@@ -158,7 +159,7 @@ struct World {
     opElemThrowPoints = opAllocThrowPoints = 0;
     memset(opElemEv, 0, sizeof opElemEv);
     opAllocCalls = opReallocCalls = opDeallocCalls = opNullDealloc = opGlobalNew = 0;
-    opCmpCalls = opPoisonCmpCalls = 0;
+    opCmpCalls = opPoisonCmpCalls = 0; opCmpBytewise = 0;
     opWatchHits = 0; watchLo = watchHi = 0; opRelocElems = 0;
     envEventIdx = 0; allocLog.clear();
     ++totOps;
